@@ -296,6 +296,19 @@ def analyse(prog, lines):
     fin = [e for e in evs if e.kind == "FINAL"]
     offers = {}
     destructor_panic = any(e.kind == "DESTRUCTOR-PANIC" for e in evs)
+    # which commands were running when a destructor panicked (the thread that did the last decrement)
+    panic_cmds = set()
+    cur_cmd = {}
+    for e in evs:
+        if e.kind == "CMD" and e.tid is not None:
+            cur_cmd[e.tid] = int(e.f[0])
+        elif e.kind == "DESTRUCTOR-PANIC" and e.tid is not None:
+            try:
+                panic_cmds.add(prog["threads"][e.tid][cur_cmd.get(e.tid, 0)][0])
+            except (IndexError, KeyError):
+                panic_cmds.add("?")
+    # known finding D6 is about WRITERS (the walk of Debt::pay_all inside swap/store/compare_and_swap/rcu)
+    panic_in_writer_only = bool(panic_cmds) and panic_cmds <= {"store", "swap", "cas", "rcu", "cinto", "cdrop"}
     if destructor_panic:
         # C18: whatever else goes wrong in a run with a panicking destructor is a C18 finding too
         for f0 in list(findings):
@@ -347,11 +360,12 @@ def analyse(prog, lines):
                 elif have != expect:
                     findings.append(("C02", "object at %d has count %d at quiescence, owners say %d (stores %d + owned %d + guards %d - unpaid slots %d)" % (
                         a, have, expect, stores.get(a, 0), owned.get(a, 0), guards.get(a, 0), slots.get(a, 0))))
-                    if destructor_panic and have == expect + 1:
+                    if destructor_panic and have == expect + 1 and panic_in_writer_only:
                         # known finding D6: a destructor panicking inside a writer's slot walk leaks the removed value's reference
                         findings.append(("C18", "after a pointee destructor panicked inside an operation the count of the value at %d is %d although its owners say %d: the reference of the value the writer removed is leaked" % (a, have, expect), "D6-destructor-panic-leak"))
                     elif destructor_panic:
-                        findings.append(("C18", "after a pointee destructor panicked inside an operation the count of the value at %d is %d, owners say %d" % (a, have, expect)))
+                        findings.append(("C18", "after a pointee destructor panicked inside %s the count of the value at %d is %d, owners say %d" % (
+                            "/".join(sorted(panic_cmds)) or "an operation", a, have, expect)))
         metrics["quiescent_checked"] = True
         nnodes = sum(1 for e in fin if e.f[0] == "node")
         metrics["nodes"] = nnodes
